@@ -79,11 +79,11 @@ func (c Config) EffCodec() uint64 {
 	return c.IndexCodec
 }
 
-func (c Config) EffMaxIdxCid() int {
+func (c Config) EffMaxIdxCid() uint64 {
 	if c.MaxIdxCid == 0 {
 		return 2048
 	}
-	return int(c.MaxIdxCid)
+	return c.MaxIdxCid
 }
 
 func (c Config) RootCids() []cid.Cid {
@@ -117,7 +117,8 @@ func GenConfig(r *Rng, store string) Config {
 	c.AllowDup = r.Chance(1, 4)
 	c.CarV1 = r.Chance(1, 5)
 	if r.Chance(1, 4) {
-		c.MaxIdxCid = 40
+		// mostly a limit that bites; sometimes the spellings of "no limit" (values beyond the int64 range)
+		c.MaxIdxCid = Pick(r, []uint64{40, 40, 40, 40, 40, 1 << 63, ^uint64(0)})
 	}
 	c.ZeroEOF = r.Chance(1, 5)
 	nroots := Pick(r, []int{0, 1, 1, 1, 2, 3})
@@ -127,8 +128,12 @@ func GenConfig(r *Rng, store string) Config {
 			c.Roots = append(c.Roots, c.Roots[r.Intn(i)]) // duplicate root
 			continue
 		}
-		k := Pick(r, []string{"raw", "cbor", "pb", "v0", "raw", "s512"})
-		c.Roots = append(c.Roots, BlkSpec{Kind: k, Seed: uint64(r.Intn(4)), Size: r.Range(0, 40)})
+		k := Pick(r, []string{"raw", "cbor", "pb", "v0", "raw", "s512", "raw", "cbor", "pb", "v0", "raw", "id"})
+		sz := r.Range(0, 40)
+		if k == "id" {
+			sz = Pick(r, []int{18, 19, 20, 250, 251}) // CID length on a CBOR head boundary (23|24, 255|256)
+		}
+		c.Roots = append(c.Roots, BlkSpec{Kind: k, Seed: uint64(r.Intn(4)), Size: sz})
 	}
 	c.EOFAtEnd = r.Chance(1, 4)
 	return c
